@@ -24,6 +24,9 @@ import (
 var (
 	repo = flag.String("repo", "/repo", "")
 	out  = flag.String("out", "", "")
+
+	modelledFile = flag.String("modelled", "/verif/go-extract/modelled_funcs.txt", "functions known to the hand-written expectations")
+	dumpFuncs    = flag.Bool("dump-funcs", false, "print the names of all functions of the analysed packages and exit")
 )
 
 const modPath = "github.com/b2broker/simplefix-go"
@@ -48,11 +51,11 @@ type block struct {
 }
 
 type facts struct {
-	Access   []access          `json:"access"`
-	Blocks   []block           `json:"blocks"`
+	Access   []access            `json:"access"`
+	Blocks   []block             `json:"blocks"`
 	Paths    map[string][]string `json:"paths"`
-	Consts   map[string]string `json:"consts"`
-	GoStarts []string          `json:"go_starts"`
+	Consts   map[string]string   `json:"consts"`
+	GoStarts []string            `json:"go_starts"`
 	Callers  map[string][]string `json:"callers"`
 }
 
@@ -633,6 +636,24 @@ func recordExprs(f *facts, name string, fd *ast.FuncDecl) {
 	})
 }
 
+var isRepoFunc = map[string]bool{}
+
+// loadModelled reads the list of functions the hand-written expectations were written against
+// (one name per line, next to the extractor's source or given with -modelled).
+func loadModelled() map[string]bool {
+	b, err := os.ReadFile(*modelledFile)
+	if err != nil {
+		return nil
+	}
+	m := map[string]bool{}
+	for _, l := range strings.Split(string(b), "\n") {
+		if l = strings.TrimSpace(l); l != "" {
+			m[l] = true
+		}
+	}
+	return m
+}
+
 func main() {
 	flag.Parse()
 	if *out == "" {
@@ -678,6 +699,7 @@ func main() {
 					continue
 				}
 				name, _ := funcName(p.Types, fd)
+				isRepoFunc[name] = true
 				if name == "session.Session.start" || name == "utils..NewTimer" {
 					recordExprs(f, name, fd)
 				}
@@ -685,6 +707,70 @@ func main() {
 				w := &walker{info: p.TypesInfo, pkg: p.Types, f: f, fn: name, ctor: ctor, calls: map[string]bool{}}
 				w.walkBlock(fd.Body)
 				f.Callers[name] = keys(w.calls)
+			}
+		}
+	}
+	if *dumpFuncs {
+		var names []string
+		for n := range isRepoFunc {
+			names = append(names, n)
+		}
+		sort.Strings(names)
+		fmt.Println(strings.Join(names, "\n"))
+		return
+	}
+	// helper functions the models do not know (extracted by a later refactor) are inlined into their callers'
+	// op lists: `modelled_funcs.txt` lists every function that existed when the expectations were written
+	if modelled := loadModelled(); modelled != nil {
+		var expand func(fn string, depth int) []string
+		expand = func(fn string, depth int) []string {
+			var outOps []string
+			for _, op := range f.Paths[fn] {
+				callee := strings.TrimPrefix(op, "call ")
+				if callee != op && depth < 6 && !modelled[callee] && !strings.Contains(callee, "$") {
+					if _, known := f.Paths[callee]; known || isRepoFunc[callee] {
+						outOps = append(outOps, expand(callee, depth+1)...)
+						continue
+					}
+				}
+				outOps = append(outOps, op)
+			}
+			return outOps
+		}
+		np := map[string][]string{}
+		for fn := range f.Paths {
+			if modelled[fn] || strings.Contains(fn, "$") {
+				np[fn] = expand(fn, 0)
+			}
+		}
+		// closures of modelled functions keep their own lists; unknown helpers disappear from the tables
+		f.Paths = np
+		// … and what an unknown helper calls is called by its callers
+		for round := 0; round < 6; round++ {
+			for fn, cs := range f.Callers {
+				var ncs []string
+				seen := map[string]bool{}
+				for _, c := range cs {
+					if !modelled[c] && isRepoFunc[c] && !strings.Contains(c, "$") {
+						for _, cc := range f.Callers[c] {
+							if !seen[cc] {
+								seen[cc] = true
+								ncs = append(ncs, cc)
+							}
+						}
+						continue
+					}
+					if !seen[c] {
+						seen[c] = true
+						ncs = append(ncs, c)
+					}
+				}
+				f.Callers[fn] = ncs
+			}
+		}
+		for fn := range f.Callers {
+			if !modelled[fn] && isRepoFunc[fn] && !strings.Contains(fn, "$") {
+				delete(f.Callers, fn)
 			}
 		}
 	}
